@@ -93,6 +93,25 @@ theorem retries_until_success (fails : List (Exc × Nat)) (h : ∀ p ∈ fails, 
 def plain : Desc :=
   ⟨none, none, false, false, false, false, false, false, false, false, false, none, false, false, false, false, none⟩
 
+/-- `e` under `n` layers of `raise RuntimeError(...) from inner` -/
+def wrapped : Nat → Exc → Exc
+  | 0, e => e
+  | n + 1, e => .mk plain .nil (wrapped n e)
+
+/-- The `__cause__` chain is followed to ANY depth: an error wrapped in `n` plain layers is classified exactly like the error
+itself by `is_transient_error` and `is_limited_retries_error` (so a transient error under 4, 8 or 50 `raise … from` layers is still
+retried), while `is_rate_limit_error` looks at the outermost exception only. -/
+theorem cause_chain_followed_to_any_depth (n : Nat) (e : Exc) :
+    isTransient (wrapped n e) = isTransient e ∧ isLimited (wrapped n e) = isLimited e ∧
+      (0 < n → isRateLimit (wrapped n e) = false) := by
+  induction n with
+  | zero => simp [wrapped]
+  | succ n ih =>
+    refine ⟨?_, ?_, fun _ => ?_⟩
+    · rw [← ih.1]; simp [wrapped, isTransient, plain]
+    · rw [← ih.2.1]; simp [wrapped, isLimited, plain]
+    · simp [wrapped, isRateLimit, plain]
+
 /-- `ConnectionResetError()` without errno: limited only -/
 def connResetNoErrno : Exc := .mk { plain with osErrno := some none, connReset := true } .nil .nil
 /-- `ConnectionResetError(104, …)`: limited AND transient (errno ECONNRESET) -/
@@ -131,6 +150,9 @@ example : retryTransientErrors (List.replicate 5 (.fail wrappedEpipe 0) ++ [.fai
 -- a 429 that asks for 300 s: the waits are the ordinary jittered back-off, never 300 000 ms
 example : retryTransientErrors (List.replicate 3 (.fail tooManyRetryAfter300 999) ++ [.ok 1])
     = .returned 1 4 [1999, 2999, 4999] := by decide
+-- a timeout under 8 layers of `raise … from` is still transient: retried (any depth: `cause_chain_followed_to_any_depth`)
+example : retryTransientErrors [.fail (wrapped 8 (.mk { plain with osErrno := some (some 110) } .nil .nil)) 0, .ok 1]
+    = .returned 1 2 [1000] := by decide
 -- a permanent error is raised by the first call, no sleep
 example : retryTransientErrors [.fail valueError 3, .ok 1] = .raised valueError 1 [] := by decide
 -- jitter: draw r ↦ r % (ceiling/2 + 1); tries = 1: ceiling 2000, delay in [1000, 2000]
